@@ -282,7 +282,7 @@ def render_scripts(events, results, tag):
     return files, programs
 
 
-def run_scripts(events, results, tag, via="script", only=None, raw=False):
+def run_scripts(events, results, tag, via="script", only=None, raw=False, timers=False):
     """Compile the rendered programs in order with the real entry point; returns a list aligned with
     the compile events: {"mir": canon} | {"err": class name}, or None if not renderable."""
     from ..real.interp import canon_err
@@ -296,6 +296,9 @@ def run_scripts(events, results, tag, via="script", only=None, raw=False):
         with open(os.path.join(d, fn), "w", encoding="utf-8") as f:
             f.write(text)
     reset_globals()
+    if timers:
+        from nada_dsl.timer import timer
+        timer.enable()
     before = set(sys.modules)
     sys.path.insert(0, d)
     outs = []
